@@ -210,7 +210,7 @@ Definition dcase_agree (k : dcase) : bool :=
   oerr_eqb e (d_init_err k) && hlog_eqb (hlog s1) (d_init_log k)
   && Bool.eqb (negb (reentered s1)) (d_init_depth_ok k)
   && match e with
-     | Some _ => true
+     | Some _ => match d_obs k with [] => true | _ => false end
      | None => run_tops (fuel_for T) T s1 (d_tops k) (d_obs k)
      end.
 
